@@ -181,6 +181,9 @@ func c10Build(cs *c10Case) (patch, file string) {
 	if cs.PatchForm == "meta" {
 		p.WriteString("var mv identifier\n")
 	}
+	if cs.Second == "meta-too" {
+		p.WriteString("var mvq identifier\n")
+	}
 	if gp, _, _ := c10PkgNames(cs.Pkg); cs.MetaPkg && gp != "" {
 		p.WriteString("var " + gp + " identifier\n")
 	}
@@ -217,6 +220,24 @@ func c10Build(cs *c10Case) (patch, file string) {
 	switch cs.Second {
 	case "satisfied", "unsatisfied", "wrongform":
 		p.WriteString(pfx + fmt.Sprintf("import %q\n", c10Path2))
+	case "meta-too":
+		// the guarded path once more, under another metavariable: one
+		// import of the file may answer for both lines
+		p.WriteString(pfx + fmt.Sprintf("import mvq %q\n", c10Path))
+	case "repeat":
+		// the first guard written twice
+		switch cs.PatchForm {
+		case "unnamed":
+			p.WriteString(pfx + fmt.Sprintf("import %q\n", c10Path))
+		case "named":
+			p.WriteString(pfx + fmt.Sprintf("import nm %q\n", c10Path))
+		case "meta":
+			p.WriteString(pfx + fmt.Sprintf("import mv %q\n", c10Path))
+		case "dot":
+			p.WriteString(pfx + fmt.Sprintf("import . %q\n", c10Path))
+		case "blank":
+			p.WriteString(pfx + fmt.Sprintf("import _ %q\n", c10Path))
+		}
 	}
 	p.WriteString(c10BodyText[cs.Body])
 
@@ -345,6 +366,10 @@ func c10Expect(cs *c10Case) bool {
 	switch cs.Second {
 	case "unsatisfied", "wrongform":
 		return false
+	case "meta-too":
+		if len(cs.FileForms) == 0 || cs.Spelling == "upper" {
+			return false
+		}
 	}
 	return true
 }
@@ -394,7 +419,7 @@ var (
 	c10Pkgs      = []string{"absent", "same", "different", "file-test", "guard-test", "both-test", "guard-prefix", "guard-longer", "case"}
 	c10Bodies    = []string{"", "expr-to-stmts", "stmts", "decl"}
 	c10Kinds     = []string{"context", "minus"}
-	c10Seconds   = []string{"none", "satisfied", "unsatisfied", "wrongform"}
+	c10Seconds   = []string{"none", "satisfied", "unsatisfied", "wrongform", "meta-too", "repeat"}
 )
 
 func c10Record(cs *c10Case, applies bool) {
